@@ -1241,6 +1241,10 @@ class Translator:
 
     def E_CXXConstructExpr(self, n, cx):
         t = self.ctype(self.qt(n)); args = n.get('inner', [])
+        if t.cls == 'atomic' and len(args) == 1:
+            # Atomic<T>(value) of a policy whose Atomic is a plain wrapper (SingleThreading): the value itself
+            at = self.ctype(self.qt(self.skip(args[0])))
+            return f'ATOMIC_LOAD({self.addr_of(args[0], cx)})' if at.cls == 'atomic' else self.E(args[0], cx)
         if t.cls == 'sp':
             if not args: return 'NULL'
             if len(args) == 1: return self.sp_value(args[0], cx)
